@@ -37,6 +37,7 @@ int (*w_on_kill)(int pid, int sig);
 void (*w_on_fork_child)(void);
 
 static int cnt[2][F_N];
+static int spin_op = -3, spin_count;  // consecutive would-block results inside one API call (virtual-clock engines)
 static int last_fork_op = -2;  // API op during which the library last forked (parent side)
 static pthread_mutex_t child_mu = PTHREAD_MUTEX_INITIALIZER;
 static trec dummy_rec;
@@ -688,6 +689,19 @@ ssize_t __wrap_write(int fd, const void *buf, size_t n)
   }
   ssize_t r = write(fd, buf, n);
   fin(t, r);
+  if (w_vclock && w_side == 0 && w_cur_op >= 0) {
+    // a caller that keeps retrying a would-block write inside ONE API call will never get anywhere on
+    // the virtual timeline (the peer only acts on scheduled events): that is a hang, not a busy wait
+    if (r < 0 && errno == EAGAIN) {
+      if (spin_op != w_cur_op) {
+        spin_op = w_cur_op;
+        spin_count = 0;
+      }
+      if (++spin_count > 5000) hang("spin:write");
+    } else {
+      spin_count = 0;
+    }
+  }
   return r;
 }
 
